@@ -31,7 +31,35 @@ package json
 // line, an I/O error) fail the datasource — in particular a reader error is never followed by another round of
 // the loop —, and — unless the query's context was cancelled (ctx.Err() is then returned) — the datasource returns nil only after
 // the reader has reported successful completion.
+// C23 (json): the records come out in file order, each line's record exactly once and unchanged, whatever order the
+// parsed batches arrive in. recIs(r, l): r is the record the parser made of line l (the parse is a function of the
+// line: json.* are uninterpreted functions of the line number; the values are identified by the slice the parser
+// allocated for the line, whose elements nothing here writes) — assumed of every message on the batch channel.
+// The reorder queue holds pointers into the batch entries (interior pointers, read through their owner object):
+// an entry at position j, if present, is the record of line startIndex + j, and its owner was allocated earlier.
+//@ spec recIs(r Record, l int) bool = r.Retraction == extBool("json.retraction", l) && r.EventTime.ns == extInt("json.eventtime", l) && r.Values.base == extInt("json.values.base", l) && r.Values.off == extInt("json.values.off", l) && len(r.Values) == extInt("json.values.len", l)
+//@ spec qInterior(queue []*Record) bool = forall(j, 0, len(queue), queue[j] != nil ==> interior(queue[j]))
+//@ spec qOwned(queue []*Record) bool = forall(j, 0, len(queue), queue[j] != nil ==> owner(queue[j]) < frontier())
+//@ spec qLines(queue []*Record, startIndex int) bool = forall(j, 0, len(queue), queue[j] != nil ==> recIs(deref(queue[j]), startIndex + j))
+//@ chan []jobOutRecord assumes batch: forall(q, 0, len(msg), msg[q].line >= 0 && (msg[q].err == nil ==> recIs(msg[q].record, msg[q].line)))
 //@ func (*DatasourceExecuting).Run
+//@   loop 1 invariant inorder.interior: qInterior(queue)
+//@   loop 1 invariant inorder.owned: qOwned(queue)
+//@   loop 1 invariant inorder.lines: qLines(queue, startIndex)
+//@   loop 1 invariant inorder.out: startIndex == len(OUT) - old(len(OUT)) && forall(k, old(len(OUT)), len(OUT), recIs(OUT[k], k - old(len(OUT))))
+//@   loop 2 invariant inorder.interior: qInterior(queue)
+//@   loop 2 invariant inorder.owned: qOwned(queue)
+//@   loop 2 invariant inorder.lines: qLines(queue, startIndex)
+//@   loop 2 invariant inorder.out: startIndex == len(OUT) - old(len(OUT)) && forall(k, old(len(OUT)), len(OUT), recIs(OUT[k], k - old(len(OUT))))
+//@   loop 3 invariant inorder.interior: qInterior(queue)
+//@   loop 3 invariant inorder.owned: qOwned(queue)
+//@   loop 3 invariant inorder.lines: qLines(queue, startIndex)
+//@   loop 3 invariant inorder.out: startIndex == len(OUT) - old(len(OUT)) && forall(k, old(len(OUT)), len(OUT), recIs(OUT[k], k - old(len(OUT))))
+//@   loop 4 invariant inorder.interior: qInterior(queue)
+//@   loop 4 invariant inorder.owned: qOwned(queue)
+//@   loop 4 invariant inorder.lines: qLines(queue, startIndex)
+//@   loop 4 invariant inorder.out: startIndex == len(OUT) - old(len(OUT)) && forall(k, old(len(OUT)), len(OUT), recIs(OUT[k], k - old(len(OUT))))
+//@   ensures inorder: forall(k, old(len(OUT)), len(OUT), recIs(OUT[k], k - old(len(OUT))))
 //@   loop 1 invariant count: len(OUT) >= old(len(OUT)) && len(OUTM) == old(len(OUTM))
 //@   loop 1 step readerfailed: selected() == 1 ==> readerErr == nil && fileReaderIsDone
 //@   loop 2 step parsed: out.err == nil
